@@ -132,12 +132,18 @@ class Style:
     """how to write an expression: bracket policy, operator spelling, whitespace"""
 
     def __init__(self, rng: random.Random, brackets: str = "min", spelling: str = "rand", ws: str = "rand"):
+        if ws == "rand" and rng.random() < 0.25:
+            ws = "between"  # a quarter of the randomly spaced renderings are written the way people write: "[1] U ([2] O [3])"
         self.rng, self.brackets, self.spelling, self.ws = rng, brackets, spelling, ws
+
+    def inner(self) -> str:
+        """whitespace directly inside square or round brackets ("between": none there, one blank between operands and operators, as people write)"""
+        return "" if self.ws == "between" else self.gap()
 
     def gap(self, need_nonempty: bool = False) -> str:
         if self.ws == "none":
             return ""
-        if self.ws == "one":
+        if self.ws in ("one", "between"):
             return " "
         n = self.rng.choice([0, 0, 1, 1, 1, 2, 3])
         return "".join(self.rng.choice(WS_CHARS) if self.rng.random() < 0.3 else " " for _ in range(n))
@@ -160,7 +166,7 @@ class Style:
 
 
 def render_leaf(e, st: Style) -> str:
-    g = st.gap
+    g = st.inner
     if e[0] == "cond" or e[0] == "time":
         return f"[{g()}{e[1]}{g()}]"
     rep = "" if e[2] is None else f"{g()}{e[2]}"
@@ -184,9 +190,9 @@ def render(e, st: Style, parent: Optional[str] = None, top: bool = True, leaf_te
         need = parent is not None and PREC[rule] < PREC[parent]
     n = (1 if need else 0) + st.extra()
     for _ in range(n):
-        s = f"({st.gap()}{s}{st.gap()})"
+        s = f"({st.inner()}{s}{st.inner()})"
     if top:
-        s = f"{st.gap()}{s}{st.gap()}"
+        s = f"{st.inner()}{s}{st.inner()}"
     return s
 
 
